@@ -149,6 +149,25 @@ def case_dump_one(case):
         if ex != (data.extra or {}):
             data.extra = ex
             feats["extra_keys"] = "all-recognised"
+    # special values: magnitudes needing a three-digit exponent, denormals, negative zero (must come back untouched)
+    if case["i"] % 3 == 0:
+        import attrs
+
+        tiny = [1.0e-120, -3.0e-310, -0.0, 4.9e-324]
+        if data.mo is not None and data.mo.energies is not None and data.mo.norb > 0:
+            en = data.mo.energies.copy()
+            en[-1] = tiny[case["i"] % 4]
+            data.mo = attrs.evolve(data.mo, energies=en)
+        if data.atcharges:
+            data.atcharges = {k: np.where(np.arange(len(v)) == 0, tiny[(case["i"] + 1) % 4], v) for k, v in data.atcharges.items()}
+        elif fmt in ("fchk", "molekel", "mol2", "json_qcschema") and data.natom:
+            key = {"fchk": "mulliken", "molekel": "mulliken", "mol2": "mol2charges", "json_qcschema": "mulliken"}[fmt]
+            q = np.zeros(data.natom)
+            q[0] = tiny[(case["i"] + 2) % 4]
+            data.atcharges = {key: q}
+        if fmt == "fchk" and data.moments is None:
+            data.moments = {(1, "c"): np.array([tiny[0], 0.25, tiny[1]])}
+        feats["special_values"] = "tiny"
     if case["i"] % 4 == 1:
         go.relayout(data, gb.rng_for(9, 77, case["seed"], case["i"]))  # equal arrays in Fortran order / strided views
         feats["layout"] = "non-contiguous"
